@@ -120,6 +120,17 @@ pub fn exercise_loaded(rec: &mut Rec, mbi: &BootInformation, opts: &MbiOpts) {
             match catch(|| it.next()) {
                 None => {
                     rec.t.push(format!("w{i}"), Val::Panic);
+                    // a caller that caught the panic may poll again: still no crash,
+                    // and anything handed out must still lie inside the region
+                    let again = catch(|| it.next().map(|t| rec.ext(t)));
+                    rec.t.push(
+                        "w.after_panic",
+                        match again {
+                            None => Val::Panic,
+                            Some(None) => Val::None,
+                            Some(Some(v)) => v,
+                        },
+                    );
                     break;
                 }
                 Some(None) => {
@@ -565,6 +576,8 @@ pub fn typed_tag_as(rec: &mut Rec, p: &str, tag: &Generic, kind: u32, opts: &Mbi
                         match catch(|| it.next()) {
                             None => {
                                 rec.t.push(format!("{p}.e{j}"), Val::Panic);
+                                let again = catch(|| it.next().map(|d| rec.ext(d)));
+                                rec.t.push(format!("{p}.e.after_panic"), match again { None => Val::Panic, Some(None) => Val::None, Some(Some(v)) => v });
                                 break;
                             }
                             Some(None) => {
